@@ -177,4 +177,61 @@ def ctorH (writes : Bool) (h : Heap) (f : DFmt) (s : Scale) (val : Part) (val2 :
       (h', .ok ⟨.delta, s, q1, q2⟩)
   | _, _ => (h, .badOperand)
 
+
+/-! ### The epoch constructors `Time(val, val2, fmt=…)` on the heap
+
+The arithmetic of a format's `_to_jds` on one element is a parameter (`split`; C02 proves what it denotes): what matters here
+is *where the result lives*.  Every branch of every `_to_jds` of the tree computes `jd1`/`jd2` into new arrays, which
+`TimeBase.__new__` then freezes.  The switch `aliases` is the other possibility — a `_to_jds` that hands its arguments on
+un-copied when nothing has to be moved between the parts: the caller's buffers become the object's `jd1`/`jd2` and are frozen.
+The check instantiates it with the `return` class of `Generated/TimePurity.lean`. -/
+
+/-- `TimeJD._to_jds` on one element: the two-part date re-split at midnight -/
+def splitMidnight (v v2 : Rat) : JD :=
+  let δ := v - (((v + v2 - 1 / 2).floor : Rat) + 1 / 2)
+  ⟨v - δ, v2 + δ⟩
+
+/-- `TimeMJD._to_jds` on one element -/
+def splitMjd (v v2 : Rat) : JD :=
+  let δ := v - (((v + v2 - 1 / 2).floor : Rat) + 1 / 2)
+  ⟨4800001 / 2 + v - δ, v2 + δ⟩
+
+/-- a constructor's `_to_jds` element by element; `val2` must have the shape of `val` -/
+def splitV (split : Rat → Rat → JD) : Val → Val → Option Val
+  | .scalar a, .scalar b => some (.scalar (split a.jd1 b.jd1))
+  | .array as, .array bs =>
+    if as.length = bs.length then some (.array (List.zipWith (fun a b => split a.jd1 b.jd1) as bs)) else none
+  | _, _ => none
+
+/-- the two columns as they were given, as a two-part value -/
+def asGiven : Val → Val → Val
+  | .scalar a, .scalar b => .scalar ⟨a.jd1, b.jd1⟩
+  | .array as, .array bs => .array (List.zipWith (fun a b => ⟨a.jd1, b.jd1⟩) as bs)
+  | v, _ => v
+
+/-- set `flags.writeable = False` on buffer `a` -/
+def Heap.freeze (h : Heap) (a : Nat) : Heap := h.modify a (fun c => ⟨c.data, false⟩)
+
+/-- an epoch constructor as a heap transformer -/
+def ctorTimeH (aliases : Bool) (split : Rat → Rat → JD) (h : Heap) (s : Scale) (val : Part) (val2 : Option Part) : Heap × ResH :=
+  match h.readCol val, (match val2 with | some p => h.readCol p | none => (h.readCol val).map Val.zerosLike) with
+  | some v, some v2 =>
+    match splitV split v v2 with
+    | none => (h, .shapeError)
+    | some r =>
+      match aliases && decide (r = asGiven v v2), val, val2 with
+      | true, .ref a, some (.ref b) => ((h.freeze a).freeze b, .ok ⟨.time, s, .ref a, .ref b⟩)
+      | true, .ref a, none =>
+        let z : Cell := ⟨(match v2 with | .array js => js.map (·.jd1) | .scalar _ => []), false⟩
+        (h.freeze a ++ [z], .ok ⟨.time, s, .ref a, .ref h.length⟩)
+      | _, _, _ =>
+        let (h', q1, q2) := h.allocVal r
+        (h', .ok ⟨.time, s, q1, q2⟩)
+  | _, _ => (h, .badOperand)
+
+/-- a part of an object that is stored outside the first `n` buffers (or is a float) -/
+def Part.freshFrom (n : Nat) : Part → Prop
+  | .imm _ => True
+  | .ref a => n ≤ a
+
 end Midgard.TimeArith
